@@ -131,11 +131,95 @@ def check_reject(case, ctx):
     ctx.check(raised, "not-rejected", "%s: non-Bezier input / non-positive count was accepted (degree %d, %d points)" % (bad, p, len(pts)))
 
 
+# ------------------------------------------------------------------------------------------------ Bezier curve objects
+@st.composite
+def _curve_cases(draw, tier):
+    c = draw(_polygon(1, 6))
+    c["rows"] = 0
+    if c["homog"] and len(c["pts"][0]) == 2:
+        # a rational curve object needs two Cartesian coordinates besides the weight
+        c["pts"] = [[q[0], q[0] * 0.5 + q[1], q[1]] for q in c["pts"]]
+    c["t"] = draw(st.integers(1, 3))
+    c["read_views"] = draw(st.booleans())
+    c["scale_exp"] = draw(st.sampled_from([0, 0, 0, -30, 12]))
+    c["second"] = draw(_polygon(c["p"], c["p"]))          # another polygon of the same degree for the second round
+    return c
+
+
+def _bezier_curve(p, pts, homog):
+    from geomdl import BSpline, NURBS
+    crv = NURBS.Curve() if homog else BSpline.Curve()
+    crv.degree = p
+    crv.set_ctrlpts([list(q) for q in pts])
+    crv.knotvector = [0.0] * (p + 1) + [1.0] * (p + 1)
+    return crv
+
+
+def _scaled_poly(c, pts):
+    e = c.get("scale_exp", 0)
+    if not e:
+        return [[float(x) for x in q] for q in pts]
+    k = len(pts[0]) - 1 if c["homog"] else len(pts[0])          # the weight coordinate is not scaled
+    return [[float(x) * 2.0 ** e for x in q[:k]] + [float(x) for x in q[k:]] for q in pts]
+
+
+def check_curve(case, ctx):
+    """The same statement through the object-level entry point: ``operations.degree_operations`` on a Bezier curve object
+    (one segment) elevates / reduces with the helpers and stores the result on the curve."""
+    from geomdl import operations
+    p, t, homog = case["p"], case["t"], case["homog"]
+    ctx.nt(p >= 3, "degree>=3")
+    ctx.nt(t >= 2, "count>=2")
+    ctx.nt(homog, "homogeneous")
+    ctx.label("tiny-or-large-coordinates", bool(case["scale_exp"]))
+    second = dict(case["second"])
+    if second["homog"] != homog or len(second["pts"][0]) != len(case["pts"][0]):
+        second = {"pts": [[c * 0.5 + 1.0 for c in q[:-1]] + [q[-1]] if homog else [c * 0.5 + 1.0 for c in q] for q in case["pts"]][::-1], "homog": homog}
+    crv = None
+    for rnd, poly in enumerate((case, second)):
+        pts = _scaled_poly(case, poly["pts"])
+        if crv is None:
+            crv = _bezier_curve(p, pts, homog)
+        else:
+            # second round on the SAME object: back to the original degree with other control points
+            crv.degree = p
+            crv.set_ctrlpts([list(q) for q in pts])
+            crv.knotvector = [0.0] * (p + 1) + [1.0] * (p + 1)
+        if case["read_views"]:
+            _ = [list(q) for q in crv.ctrlpts]
+            if homog:
+                _ = list(crv.weights)
+        operations.degree_operations(crv, [t])
+        want = ref.bezier_elevate(pts, t)
+        got = [list(q) for q in (crv.ctrlptsw if homog else crv.ctrlpts)]
+        big = max(abs(c) for q in pts for c in q)
+        ctx.check(crv.degree == p + t and len(got) == p + t + 1, "curve-elevated-count",
+                  "degree_operations(+%d) on a Bezier curve of degree %d (round %d): degree %r, %d control points" % (t, p, rnd + 1, crv.degree, len(got)))
+        for i, (g, w) in enumerate(zip(got, want)):
+            ctx.check(len(g) == len(w) and all(abs(F(x) - y) <= F(1, 10 ** 9) * F(big) for x, y in zip(g, w)), "curve-elevated-point",
+                      "degree_operations(+%d), round %d on the same curve object: control point %d is %r, exact elevation %r" % (t, rnd + 1, i, g, ref.fl(w)))
+        if homog:
+            P_, W_ = [list(q) for q in crv.ctrlpts], list(crv.weights)
+            ok = len(P_) == len(got) and len(W_) == len(got) and all(
+                abs(w_ - g[-1]) <= 1e-12 * abs(g[-1]) and all(abs(c * w_ - x) <= 1e-9 * big for c, x in zip(q, g[:-1])) for q, w_, g in zip(P_, W_, got))
+            ctx.check(ok, "curve-views-after-elevation", "after degree_operations(+%d) ctrlpts (%d) * weights (%d) is not the stored homogeneous net (%d points)" % (t, len(P_), len(W_), len(got)))
+        for _ in range(t):
+            operations.degree_operations(crv, [-1])
+        back = [list(q) for q in (crv.ctrlptsw if homog else crv.ctrlpts)]
+        ctx.check(crv.degree == p and len(back) == p + 1, "curve-reduced-count", "after %d reductions: degree %r, %d control points" % (t, crv.degree, len(back)))
+        for i, (g, w) in enumerate(zip(back, pts)):
+            ctx.check(len(g) == len(w) and all(abs(x - y) <= 1e-7 * big for x, y in zip(g, w)), "curve-reduction-not-inverse",
+                      "elevating by %d and reducing %d times (round %d): control point %d is %r, original %r" % (t, t, rnd + 1, i, g, w))
+
+
 SUBCHECKS = [
     SubCheck("elevate", _elev_cases, check_elevate, quick=500, thorough=3000,
              rule="non-trivial = degree >= 3, or count >= 2, or homogeneous coordinates, or rows of points"),
     SubCheck("reduce", _reduce_cases, check_reduce, quick=500, thorough=3000,
              rule="non-trivial = reduction from degree >= 4, or homogeneous coordinates"),
+    SubCheck("curve", _curve_cases, check_curve, quick=300, thorough=1500,
+             rule="Bezier curve objects elevated / reduced through operations.degree_operations, twice on the same object with "
+                  "different control points; non-trivial = degree >= 3, or count >= 2, or homogeneous"),
     SubCheck("reject", _reject_cases, check_reject, quick=200, thorough=800, shards_thorough=4,
              rule="every case offers a non-Bezier polygon or a non-positive count"),
 ]
